@@ -12,6 +12,7 @@ pub mod c14;
 pub mod c15;
 pub mod c16;
 pub mod c17;
+pub mod c18;
 pub mod c19;
 
 pub fn run(ctx: &Ctx) -> Report {
@@ -29,6 +30,7 @@ pub fn run(ctx: &Ctx) -> Report {
     "C15" => c15::run(ctx),
     "C16" => c16::run(ctx),
     "C17" => c17::run(ctx),
+    "C18" => c18::run(ctx),
     "C19" => c19::run(ctx),
     other => {
       eprintln!("no harness for property {other}");
